@@ -421,6 +421,34 @@ func checkPacket(c *vf.Ctx, t *tpkt) {
 				})
 			}
 		}
+		// ... and a receiver that has decoded another packet before (one packet structure per socket loop)
+		// reads this one like a fresh receiver does
+		{
+			prev := &tpkt{id: 0x7071, flags: 0x8580, sec: [4][]rec{{std("PREV", []string{"old"}, 0, 0), std("PREV2", nil, 0, 1)}, {std("PREVA", []string{"old"}, 1, 0), std("PREVB", nil, 1, 1)},
+				{std("PREVN", nil, 2, 0), std("PREVM", nil, 2, 1)}, {std("PREVX", []string{"old", "er"}, 3, 0), std("PREVY", nil, 3, 1)}}}
+			if pw, perr := prev.lib().Marshal(); perr == nil {
+				var reused nbtns.NBTNSPacket
+				var rerr error
+				var rn int
+				if p, _, _ := vf.Try(func() {
+					if _, rerr = reused.Unmarshal(pw); rerr == nil {
+						rn, rerr = reused.Unmarshal(append([]byte{}, first0(wire)...))
+					}
+				}); !p && rerr == nil {
+					h := reused.Header
+					okh := rn == len(wire) && h.TransactionID == t.id && h.Flags == t.flags && int(h.Questions) == len(t.sec[0]) && int(h.Answers) == len(t.sec[1]) && int(h.Authority) == len(t.sec[2]) && int(h.Additional) == len(t.sec[3])
+					c.Check("C10/packet/history/receiver-that-decoded-another-packet-before/header", okh, func() string {
+						return fmt.Sprintf("Unmarshal(other packet); Unmarshal(Marshal(p)) into the same receiver: n=%d header %+v; p = %s", rn, h, t)
+					})
+					for s := 0; s < 4; s++ {
+						ok, diff := cmpLibSection(s, t.sec[s], &reused)
+						c.Check("C10/packet/history/receiver-that-decoded-another-packet-before/"+secName[s], ok, func() string {
+							return fmt.Sprintf("Unmarshal(other packet); Unmarshal(Marshal(p)) into the same receiver: %s; p = %s", diff, t)
+						})
+					}
+				}
+			}
+		}
 		var again []byte
 		var aerr error
 		first := append([]byte{}, wire...)
@@ -455,6 +483,8 @@ func checkPacket(c *vf.Ctx, t *tpkt) {
 		return fmt.Sprintf("Marshal(%s) = %s: %d bytes after the last record", t, vf.HexS(wire), rp.Trailing)
 	})
 }
+
+func first0(b []byte) []byte { return b }
 
 func std(name string, scope []string, s, i int) rec {
 	r := rec{name: name, scope: scope, typ: 0x0020, class: 0x0001}
